@@ -519,6 +519,13 @@ def _api_setup():
     w("A/main.yaml", "top: a.txt\ng: ../B/g.yaml\n")
     w("B/g.yaml", "p: data/x.txt\nh: ../C/h.yaml\n")
     w("C/h.yaml", "q: y.txt\n")
+    # a list of paths kept in a file of its own, as YAML sequence / JSON array / one path per line; entries are relative to that file
+    w("B/list.yaml", "- data/x.txt\n- ../C/y.txt\n")
+    w("B/list.json", '["data/x.txt", "../C/y.txt"]')
+    w("B/list.txt", "data/x.txt\n../C/y.txt\n")
+    os.makedirs(os.path.join(root, "elsewhere", "data"))
+    w("elsewhere/data/x.txt", "decoy")  # same relative name under another directory
+    w("A/main_list.yaml", "top: a.txt\ng: ../B/g.yaml\nfiles: ../B/list.yaml\n")
     w("A/main_missing_top.yaml", "top: nope.txt\ng: ../B/g.yaml\n")
     w("A/main_missing_g.yaml", "top: a.txt\ng: ../B/g_bad.yaml\n")
     w("B/g_bad.yaml", "p: data/nope.txt\nh: ../C/h.yaml\n")
@@ -548,6 +555,9 @@ def _api_parser():
     parser.add_argument("--cfg", action=ActionConfigFile)
     parser.add_argument("--top", type=Path_fr)
     parser.add_argument("--g", type=G)
+    from typing import List, Optional
+
+    parser.add_argument("--files", type=Optional[List[Path_fr]], default=None, enable_path=True)
     return parser
 
 
@@ -556,6 +566,8 @@ def _api_once(cwd_choice, entry, variant):
 
     root = _api_setup()["root"]
     cwd = {"root": root, "A": root + "/A", "B": root + "/B", "C": root + "/C", "elsewhere": root + "/elsewhere"}[cwd_choice]
+    if variant.startswith("list_"):
+        return _api_list_once(root, cwd, entry, variant)
     main = {"ok": "main.yaml", "missing_top": "main_missing_top.yaml", "missing_g": "main_missing_g.yaml", "missing_h": "main_missing_h.yaml"}[variant]
     main_abs = os.path.join(root, "A", main)
     main_given = os.path.relpath(main_abs, cwd) if entry.endswith("rel") else main_abs
@@ -591,9 +603,55 @@ def _api_once(cwd_choice, entry, variant):
     return True
 
 
+def _api_list_once(root, cwd, entry, variant):
+    """--files <list file>: every entry of the list is resolved against the directory of the list file."""
+    from jsonargparse import ArgumentError
+
+    parser = _api_parser()
+    if variant != "list_in_config":
+        from typing import List, Optional
+
+        from jsonargparse import ArgumentParser
+        from jsonargparse.typing import Path_fr
+
+        parser = ArgumentParser(exit_on_error=False)
+        parser.add_argument("--files", type=Optional[List[Path_fr]], default=None, enable_path=True)
+    old = os.getcwd()
+    os.chdir(cwd)
+    try:
+        try:
+            if variant == "list_in_config":
+                main_abs = os.path.join(root, "A", "main_list.yaml")
+                given = os.path.relpath(main_abs, cwd) if entry.endswith("rel") else main_abs
+                cfg = parser.parse_path(given) if entry.startswith("parse_path") else parser.parse_args([f"--cfg={given}"])
+            else:
+                lst = os.path.join(root, "B", {"list_yaml": "list.yaml", "list_json": "list.json", "list_txt": "list.txt"}[variant])
+                given = os.path.relpath(lst, cwd) if entry.endswith("rel") else lst
+                cfg = parser.parse_args([f"--files={given}"]) if entry.startswith("cfg") else parser.parse_object({"files": given})
+            failed = False
+        except ArgumentError as ex:
+            failed = True
+            msg = str(ex)[:200]
+        after = os.getcwd()
+    finally:
+        os.chdir(old)
+    S.note("fails" if failed else "parses")
+    if after != cwd:
+        return Fail("api:cwd-not-restored", cwd=cwd, after=after)
+    if failed:
+        if variant == "list_txt" and entry.endswith("rel") and cwd != os.path.join(root, "B"):
+            return True  # a plain-text list given by a relative path is not found from another directory today; not demanded
+        return Fail("api:list-of-paths-in-a-file-rejected", variant=variant, entry=entry, msg=msg)
+    want = [root + "/B/data/x.txt", root + "/C/y.txt"]
+    got = [os.path.realpath(p.absolute) for p in cfg.files]
+    if got != want:
+        return Fail("api:relative-path-not-resolved-against-the-list-file-dir", variant=variant, got=got)
+    return True
+
+
 API_CWDS = ["root", "A", "B", "C", "elsewhere"]
 API_ENTRIES = ["parse_path_abs", "parse_path_rel", "cfg_abs", "cfg_rel"]
-API_VARIANTS = ["ok", "missing_top", "missing_g", "missing_h"]
+API_VARIANTS = ["ok", "missing_top", "missing_g", "missing_h", "list_yaml", "list_json", "list_txt", "list_in_config"]
 
 
 def api():
